@@ -15,7 +15,7 @@ from sim.loop import GRID
 from sim.prop import Prop, sweep_expand
 
 U = 128 * GRID  # 1/8 s
-OUTCOMES = ("value", "exc", "base", "raise_cancelled", "self_cancel", "ignore_value", "ignore_exc", "own_timeout", "bad_call")
+OUTCOMES = ("value", "exc", "base", "raise_cancelled", "self_cancel", "ignore_value", "ignore_exc", "own_timeout", "bad_call", "value_is_exception")
 # the function's own exception need not be a harness class: exception types that asyncio itself uses for control flow
 EXC_CLASSES = (("Injected", Injected), ("InvalidStateError", asyncio.InvalidStateError), ("StopAsyncIteration", StopAsyncIteration),
                ("AssertionError", AssertionError), ("RuntimeError", RuntimeError), ("QueueEmpty", asyncio.QueueEmpty),
@@ -129,6 +129,7 @@ class C16(Prop):
 
         sim.program = {"calls": specs, "callers_in_scope": int(scoped), "inject_at_iteration": sim.inject_choice if profile == "sweep" else 0,
                        "second_call_on_second_event_loop": int(second_loop)}
+        sim.program["wrapped_is_sync_passthrough"] = 0
         jitter = sim.jitter_steps * GRID
 
         calls = []
@@ -166,6 +167,8 @@ class C16(Prop):
                             raise
                     if out in ("value", "ignore_value"):
                         return rec["result"]
+                    if out == "value_is_exception":
+                        return rec["exc"]  # an exception instance handed back as a VALUE (errors-as-values): not raised
                     if out in ("exc", "ignore_exc"):
                         raise rec["exc"]
                     if out == "own_timeout":
@@ -249,12 +252,21 @@ class C16(Prop):
             return await fns[arg[1]][0](arg, kw=kw)
 
         strict.__name__ = "fn"
+
+        import functools
+
+        @functools.wraps(dispatch)
+        def passthrough(*a, **k):  # a classic synchronous pass-through decorator around the async function
+            return dispatch(*a, **k)
+
+        via_passthrough = s.chance(1, 5, "sync-passthrough-decorator")
+        sim.program["wrapped_is_sync_passthrough"] = int(via_passthrough)
         wrappers = {}
 
         def wrapper_for(spec):
             bad = spec["outcome"] == "bad_call"
             key = (spec["T"], spec["stacked"], bad)
-            target = strict if bad else dispatch
+            target = strict if bad else (passthrough if via_passthrough else dispatch)
             if key not in wrappers:
                 if spec["stacked"]:
                     sim.stats["stacked_decorators"] += 1
@@ -343,6 +355,8 @@ class C16(Prop):
             # the function's own outcome as the caller must see it
             if o in ("value", "ignore_value"):
                 return kind == "value" and obj is rec["result"]
+            if o == "value_is_exception":
+                return kind == "value" and obj is rec["exc"]
             if o in ("exc", "ignore_exc"):
                 return kind == "raised" and obj is rec["exc"]
             if o == "own_timeout":
